@@ -7,10 +7,10 @@ package conf
 
 // ------------------------------------------------------------------ the element tree
 //
-// wfTree: every element has a children map, and every entry of it is an element.
+// wfTree: every element has a children map, and every entry of it is an element stored under its own name.
 //
 //@ pred isElem(e) = e != nil && e.iselem
-//@ pred wfTree() = forall l: *elem {l.iselem} :: l.iselem ==> (l != nil && l.children != nil && (forall k: seq {l.children[k]} :: haskey(l.children, k) ==> (l.children[k] != nil && l.children[k].iselem)))
+//@ pred wfTree() = forall l: *elem {l.iselem} :: l.iselem ==> (l != nil && l.children != nil && (forall k: seq {l.children[k]} :: haskey(l.children, k) ==> (l.children[k] != nil && l.children[k].iselem && l.children[k].name == k)))
 //
 //@ func newElem
 //@   allocates
@@ -77,6 +77,31 @@ package conf
 //
 //@ func (*elem).getValue
 //@   requires isElem(e) && wfTree()
+//@   allocates
+//@   safety [C17]
+//
+// getMap (the key/value listing of a domain): exactly the leaves of the domain the path leads to (ghost e.gnode),
+// each under its key with its value. The loop ranges over the children map; `visited(0, k)` is the set of keys the
+// iteration has produced so far, complete when it ends (the loop inserts into the result map only, which is of
+// another type).
+//@ func (*elem).getMap
+//@   requires isElem(e) && wfTree()
+//@   closedheap
+//@   modifies e.gnode
+//@   allocates
+//@   site getElem#0 ghostafter e.gnode = $ret0
+//@   ensures [C17] result1 == nil ==> (forall k: seq {result0[k]} {haskey(result0, k)} :: haskey(result0, k) == (haskey(cast(e.gnode, "*elem").children, k) && cast(e.gnode, "*elem").children[k].kind == 1))
+//@   ensures [C17] result1 == nil ==> (forall k: seq {result0[k]} :: haskey(result0, k) ==> result0[k] == cast(e.gnode, "*elem").children[k].value)
+//@   loop 0 invariant isElem(targetNode) && wfTree() && kvMap != nil && e.gnode == targetNode && err == nil
+//@   loop 0 invariant forall l: *elem {l.iselem} :: l.iselem ==> l.children != kvMap
+//@   loop 0 invariant [C17] forall k: seq {kvMap[k]} {haskey(kvMap, k)} :: haskey(kvMap, k) ==> (visited(0, k) && haskey(targetNode.children, k) && targetNode.children[k].kind == 1 && kvMap[k] == targetNode.children[k].value)
+//@   loop 0 invariant [C17] forall k: seq {visited(0, k)} :: (visited(0, k) && haskey(targetNode.children, k) && targetNode.children[k].kind == 1) ==> haskey(kvMap, k)
+//@   loop 0 modifies mapcells(kvMap)
+//@   safety [C17]
+//
+//@ func (*Conf).GetMap
+//@   requires confOK(c)
+//@   noframe
 //@   allocates
 //@   safety [C17]
 //
